@@ -314,6 +314,13 @@ func execSchema(h *vh.H, op string) string {
 				}
 			}
 		}
+		if culprit == "?" {
+			// no single field reproduces it: the root's own annotations (entity / any-membership) or the combination
+			culprit = "root"
+			if root.Ent != nil || root.Part != nil || root.BarEnt != nil {
+				culprit = "root[entity]"
+			}
+		}
 		h.Fail("reader-"+memErr+":"+culprit, op, "lib/j5schema could not reflect the compiled descriptors: "+memErr)
 		return "reader-" + memErr
 	}
